@@ -282,6 +282,19 @@ def main(argv=None) -> int:
     if changed_files:
         ctx.notes.append('anchored source files changed since the model was validated: ' + ', '.join(changed_files)
                          + ' (3x budget used)')
+        # which *modelled* functions changed (harness/modelmap.py): the model definitions named here are the
+        # ones whose correspondence with the code is in question on this run
+        try:
+            changed_fns = anchors.changed_functions(prop, repo_root)
+        except Exception as e:  # the map is a reporting aid; never let it decide a verdict
+            changed_fns = [f'<modelmap unavailable: {e}>']
+        if changed_fns:
+            print('NOTE: modelled functions whose code changed: ' + '; '.join(changed_fns), file=sys.stderr)
+            ctx.notes.append('modelled functions whose code changed since the model was validated: '
+                             + '; '.join(changed_fns))
+        else:
+            ctx.notes.append('no modelled function of this property changed (docstrings, comments and layout apart); '
+                             'the change lies in code the model takes as a parameter or does not cover')
     try:
         if getattr(mod, 'DRIVER', None):
             ctx.driver = lean.Driver(mod.DRIVER)
